@@ -567,6 +567,12 @@ class Body:
             nt = NEWTYPES.get(at)
             if nt and dt == nt[1]:
                 return mk_field(args[0], "0")
+        if path.endswith("Option::unwrap_or_default") and len(args) == 1:
+            # numeric default: `.unwrap_or_default()` ≡ `.unwrap_or(0)` (also for the integer newtypes, whose wrapper is not rendered)
+            dt = self._place_type(t.get("dest"))
+            base = NEWTYPES.get(dt, (None, dt))[1]
+            if base in ("u8", "u16", "u32", "u64", "u128", "usize", "i8", "i16", "i32", "i64", "i128", "isize"):
+                return ("call", path[:-len("unwrap_or_default")] + "unwrap_or", (args[0], ("const", base, 0)))
         return simplify_call(path, args, tp)
 
     def _place_type(self, pl):
@@ -688,16 +694,43 @@ def mk_field(e, name):
     return ("field", e, name)
 
 
+def mk_try(e):
+    """success payload of an Option/Result value, however the failure arm is spelled: `x?`, `x.ok_or(E)?`, `x.map_err(f)?`,
+    `match x { Some(v) => v, None => return .. }`, `if let Some(v) = x` all give ('try', x)"""
+    while e[0] == "call" and len(e[2]) >= 1 and e[1].split("::")[-1] in ("ok_or", "ok_or_else", "map_err") and \
+            ("Option" in e[1] or "Result" in e[1]):
+        e = e[2][0]
+    if e[0] == "phi":
+        # a value assembled on several paths (an inlined helper's return slot): failure alternatives do not reach the success payload
+        ok = []
+        for a in e[1]:
+            if a[0] == "agg" and a[2] in ("Err", "None"):
+                continue
+            if a[0] == "call" and a[1].endswith("::from_residual"):
+                continue
+            ok.append(a)
+        if len(ok) == 1:
+            a = ok[0]
+            if a[0] == "agg" and a[2] in ("Ok", "Some") and len(a[3]) == 1:
+                return a[3][0][1]
+            return mk_try(a)
+    if e[0] == "agg" and e[2] in ("Ok", "Some") and len(e[3]) == 1:
+        return e[3][0][1]
+    return ("try", e)
+
+
 def mk_vfield(e, variant, name):
     # payload of x? : Continue(v) of branch(x) is the success payload of x
     if e[0] == "branch" and variant == "Continue":
-        return ("try", e[1])
+        return mk_try(e[1])
     if e[0] == "next" and variant == "Some":
         return ("elem", e[1])
     if e[0] == "agg" and e[2] == variant:
         for (n, v) in e[3]:
             if n == name:
                 return v
+    if variant in ("Some", "Ok") and name == "0":
+        return mk_try(e)
     return ("vfield", e, variant, name)
 
 
@@ -705,7 +738,18 @@ COMMUTATIVE = {"Add", "Mul", "BitAnd", "BitOr", "BitXor", "Eq", "Ne", "AddWithOv
                "AddUnchecked", "MulUnchecked"}
 
 
+_FOLD = {"Add": lambda x, y: x + y, "Sub": lambda x, y: x - y, "Mul": lambda x, y: x * y, "Shl": lambda x, y: x << y if 0 <= y < 256 else None,
+         "Shr": lambda x, y: x >> y if 0 <= y < 256 else None, "Div": lambda x, y: x // y if y > 0 and x >= 0 else None,
+         "BitAnd": lambda x, y: x & y, "BitOr": lambda x, y: x | y}
+
+
 def mk_bin(op, a, b):
+    # constant folding: `1 << 20` written in place and a constant holding 1048576 are the same value
+    if op in _FOLD and a[0] == "const" and b[0] == "const" and len(a) == 3 and len(b) == 3 and isinstance(a[2], int) and isinstance(b[2], int) \
+            and not isinstance(a[2], bool) and a[1] != "bool":
+        v = _FOLD[op](a[2], b[2])
+        if v is not None and 0 <= v < (1 << 128):
+            return ("const", a[1], v)
     if op in COMMUTATIVE and repr(b) < repr(a):
         a, b = b, a
     return ("bin", op, a, b)
